@@ -284,6 +284,29 @@ def do_replay(pid, path):
 
 # -------------------------------------------------------------------------------------------------
 
+def anchor_files(pid):
+    """basenames of the source files the property is anchored in (properties.jsonl)"""
+    try:
+        for ln in open(os.path.join(core.HERE, "..", "properties.jsonl")):
+            p = json.loads(ln)
+            if p["id"] == pid:
+                return {os.path.basename(f) for f in p["anchors"]["files"]}
+    except Exception:  # noqa: BLE001
+        pass
+    return None
+
+
+def anchor_where(pid):
+    try:
+        for ln in open(os.path.join(core.HERE, "..", "properties.jsonl")):
+            p = json.loads(ln)
+            if p["id"] == pid:
+                return [m["where"] for m in p["anchors"]["mechanism"]]
+    except Exception:  # noqa: BLE001
+        pass
+    return []
+
+
 def prop_fn(pid):
     import props_a, props_b, props_c, props_d
     for m in (props_a, props_b, props_c, props_d):
@@ -337,8 +360,15 @@ def main():
         if not os.path.exists(core.DRIVER):
             raise Infra("model driver missing after build")
         fn = prop_fn(pid)
+        import reach
+        reach_on = reach.start(core.REPO)
         try:
-            fn(ctx)
+            try:
+                fn(ctx)
+            finally:
+                if reach_on:
+                    ctx.extra["anchor_reach"] = reach.anchor_report(anchor_where(pid))
+                    ctx.extra["line_reach"] = reach.report(anchor_files(pid))
         except Infra:
             raise
         except Exception as e:  # noqa: BLE001
